@@ -478,8 +478,10 @@ def check_dims(ctx, chk):
         st = {}
         for ev in s.events:
             if ev.kind == "store" and ev.data["target"] == "sub":
-                st.setdefault((cn.show(ev.data["base"]), cn.show(ev.data["idx"])), []).append(
-                    cn.show(ev.data["value"]))
+                b_, i_ = ev.data["base"], ev.data["idx"]
+                if i_[0] == "tuple" and len(i_[1]) == 2:        # T[r, c] = v is T[r][c] = v
+                    b_, i_ = ("sub", b_, i_[1][0]), i_[1][1]
+                st.setdefault((cn.show(b_), cn.show(i_)), []).append(cn.show(ev.data["value"]))
         want = {("self[#self.aux_row]", str(k)): [f"result.{n}"] for k, n in enumerate(FLAGS)}
         chk.ob("C09.dims", "Observation.from_action_result writes success / connection / permission "
                "/ undefined error into slots 0,1,2,3 of the auxiliary row and nothing else",
